@@ -1,7 +1,7 @@
 (* Filter/BcjAllProofs.v — the stream theorems for all eight architectures. *)
 From LzVerif Require Import Base.Bytes Filter.Bcj Filter.BcjStream Filter.BcjArithProofs
   Filter.BcjWordProofs Filter.BcjCodeProofs Filter.BcjStreamProofs Filter.BcjInstProofs
-  Filter.BcjWinProofs Filter.BcjRiscvProofs Filter.BcjIa64Proofs Filter.BcjX86Proofs Filter.BcjX86InvProofs.
+  Filter.BcjWinProofs Filter.BcjRiscvProofs Filter.BcjIa64Proofs Filter.BcjX86Proofs Filter.BcjX86InvProofs Filter.BcjRiscvInvProofs.
 Ltac Zify.zify_post_hook ::= Z.div_mod_to_equations.
 
 Theorem code_facts_all a enc : code_facts a enc.
@@ -147,18 +147,12 @@ Proof. intros start buf. apply bcj_inverse_ia64. Qed.
 Lemma code_inverse_x86 : code_inverse X86.
 Proof. intros start buf _. apply bcj_inverse_x86. Qed.
 
-Theorem bcj_roundtrip_word : forall a, In a [X86; ARM; ARMT; ARM64; PPC; SPARC; IA64] ->
-  forall start data, start mod bcj_align a = 0 -> bytes_ok data = true ->
-  exists enc,
-    bcj_enc_parts a start [data] = Ok enc /\ length enc = length data /\
-    forall parts sizes, concat parts = enc -> Forall (fun n => 0 <= n) sizes ->
-      Z.of_nat (length data) <= fold_right Z.add 0 sizes ->
-      exists rs' inner',
-        bcj_read_calls (bcj_read_fuel (data_script parts)) a (bcj_reader_new a start) (data_script parts) sizes =
-          Ok (data, [], rs', inner').
+Lemma code_inverse_riscv : code_inverse RISCV.
+Proof. intros start buf. apply bcj_inverse_riscv. Qed.
+
+Lemma code_inverse_all a : code_inverse a.
 Proof.
-  intros a Ha. apply bcj_roundtrip.
-  destruct Ha as [<-|[<-|[<-|[<-|[<-|[<-|[<-|[]]]]]]]].
+  destruct a.
   - exact code_inverse_x86.
   - exact code_inverse_arm.
   - exact code_inverse_armthumb.
@@ -166,4 +160,23 @@ Proof.
   - exact code_inverse_ppc.
   - exact code_inverse_sparc.
   - exact code_inverse_ia64.
+  - exact code_inverse_riscv.
 Qed.
+
+(* all eight architectures *)
+Theorem bcj_inverse_all : forall a start buf, start mod bcj_align a = 0 -> bytes_ok buf = true ->
+  exists st' out rest,
+    bcj_code a true (bcj_init a start) buf = Ok (st', out, rest) /\
+    bcj_code a false (bcj_init a start) (out ++ rest) = Ok (st', firstn (length out) buf, rest) /\
+    firstn (length out) buf ++ rest = buf /\ bytes_ok out = true.
+Proof. exact code_inverse_all. Qed.
+
+Theorem bcj_roundtrip_all : forall a start data, start mod bcj_align a = 0 -> bytes_ok data = true ->
+  exists enc,
+    bcj_enc_parts a start [data] = Ok enc /\ length enc = length data /\
+    forall parts sizes, concat parts = enc -> Forall (fun n => 0 <= n) sizes ->
+      Z.of_nat (length data) <= fold_right Z.add 0 sizes ->
+      exists rs' inner',
+        bcj_read_calls (bcj_read_fuel (data_script parts)) a (bcj_reader_new a start) (data_script parts) sizes =
+          Ok (data, [], rs', inner').
+Proof. intros a. apply bcj_roundtrip. apply code_inverse_all. Qed.
